@@ -70,6 +70,9 @@ def layout(arr, how):
         a = np.ascontiguousarray(arr).copy()
         a.flags.writeable = False
         return a
+    if how == 'bigendian':      # C-contiguous, but stored in the byte order that is not the file's (and rarely the machine's)
+        a = np.ascontiguousarray(arr)
+        return a.astype(a.dtype.newbyteorder('>')) if a.dtype.itemsize > 1 else a.copy()
     if how == 'readonly_view':  # read-only and non-contiguous
         a = layout(arr, 'view')
         a.flags.writeable = False
@@ -94,7 +97,7 @@ def awkward_geometry(series, r):
     return series
 
 
-LAYOUTS = ['c', 'c', 'f', 'transposed', 'view', 'negstride', 'readonly', 'readonly', 'readonly_view']
+LAYOUTS = ['c', 'c', 'f', 'transposed', 'view', 'negstride', 'readonly', 'readonly', 'readonly_view', 'bigendian']
 
 
 def num(r, x):
@@ -131,7 +134,7 @@ def awkward_geometry(series, r):
     return series
 
 
-LAYOUTS = ['c', 'c', 'f', 'transposed', 'view', 'negstride', 'readonly', 'readonly', 'readonly_view']
+LAYOUTS = ['c', 'c', 'f', 'transposed', 'view', 'negstride', 'readonly', 'readonly', 'readonly_view', 'bigendian']
 
 
 def num(r, x):
@@ -495,6 +498,7 @@ def subject_ann(r, nr):
     n = r.randint(1, 4)
     dim = 3 if coord3d else 2
     how = r.choice(LAYOUTS)
+    long_fractions = r.random() < 0.5
     data = []
     for _ in range(n):
         npts = {'POINT': 1, 'RECTANGLE': 4, 'ELLIPSE': 4}.get(gtype, r.randint(3, 5))
@@ -503,6 +507,8 @@ def subject_ann(r, nr):
             pts = np.array([[x0, y0], [x0 + 2, y0], [x0 + 2, y0 + 1], [x0, y0 + 1]])
         else:
             pts = nr.integers(1, 7, size=(npts, 2)).astype(np.float64) + 0.5
+            if long_fractions:      # coordinates as they come out of an algorithm: all 52 bits of the fraction in use
+                pts = pts + nr.random(size=pts.shape) / 3
         if coord3d:
             pts = np.hstack([pts, np.zeros((pts.shape[0], 1))])
         data.append(layout(pts.astype(r.choice([np.float64, np.float32])), how))
@@ -523,7 +529,7 @@ def subject_ann(r, nr):
             annotation_coordinate_type=hd.ann.AnnotationCoordinateTypeValues.SCOORD3D if coord3d
             else hd.ann.AnnotationCoordinateTypeValues.SCOORD,
             annotation_groups=[group], **ids, **eq)
-    return {'name': 'ann.MicroscopyBulkSimpleAnnotations', 'variant': (coord3d, gtype, how, meas is not None),
+    return {'name': 'ann.MicroscopyBulkSimpleAnnotations', 'variant': (coord3d, gtype, how, meas is not None, n, long_fractions),
             'call': call, 'inputs': {'source_images': [ds], 'graphic_data': data, 'measurements': meas}}
 
 
